@@ -218,31 +218,20 @@ theorem set_data_blocks (xs : List Int) (start : Int) (chs : Chs) (h : (xs.lengt
       (fun ch => dataCmds ch start (chunks 1024 (xs.map bit)))).flatten, (checkChannels chs).2⟩ :=
   setData_flat_eq xs start chs h
 
-/-- with a start address inside the memory every block lies inside the memory `1..2^21`, for data of any length
-    (longer data are truncated with a warning) -/
-theorem set_data_addresses (xs : List Int) (start : Int) (chs : Chs) (h1 : 1 ≤ start) (h2 : start ≤ 2 ^ 21)
-    (o : Ppg.Out) (ho : setData (.flat xs) start chs = .ok o) :
-    ∀ c ∈ o.cmds, ∃ ch addr n k b, c = .data ch addr n k b ∧ 1 ≤ addr ∧ addr + n - 1 ≤ 2 ^ 21 := by
-  intro c hc
-  unfold setData at ho
-  simp only [Except.ok.injEq] at ho
-  subst ho
-  simp only [List.mem_flatten] at hc
-  obtain ⟨l, hl, hcl⟩ := hc
-  obtain ⟨ch, _, bits, hbits, rfl⟩ := mem_zipWith _ _ _ _ hl
-  have hb := List.eq_of_mem_replicate hbits
-  obtain ⟨addr, n, k, b, rfl, ha1, ha2⟩ := dataCmds_addr_range ch _ start c hcl
-  refine ⟨ch, addr, n, k, b, rfl, by omega, ?_⟩
-  rw [chunks_flatten MAX_CHUNK_LEN (by decide) _ _ (le_refl _)] at ha2
-  have hlen : (bits.length : Int) ≤ 2 ^ 21 - start + 1 := by
-    rw [hb, List.length_map]
-    simp only [gen_memory]
-    norm_num at h2 ⊢
-    split_ifs with hw
-    · have := pyTake_length_le (2097152 - start + 1) xs (by omega)
-      simpa using this
-    · simpa using hw
-  omega
+/-- 2-D (one row per channel) data whose rows fit into the memory are sent row by row to the selected channels,
+    untruncated and without a warning from the length test -/
+theorem set_data_blocks_2d (r : List Int) (rest : List (List Int)) (start : Int) (chs : Chs)
+    (hall : ∀ r' ∈ rest, r'.length = r.length) (h : (r.length : Int) ≤ 2 ^ 21 - start + 1) :
+    setData (.rows (r :: rest)) start chs =
+      .ok ⟨blocksFor start (checkChannels chs).1 ((r :: rest).map (·.map bit)), (checkChannels chs).2⟩ :=
+  setData_rows_eq r rest start chs hall h
+
+/-- with a start address inside the memory every block lies inside the memory `1..2^21`, for 1-D and 2-D data of any
+    length (the bits per channel are truncated to what fits, also next to the end of the memory) -/
+theorem set_data_addresses (d : DataArg) (start : Int) (chs : Chs) (h1 : 1 ≤ start) (h2 : start ≤ 2 ^ 21)
+    (o : Ppg.Out) (ho : setData d start chs = .ok o) :
+    ∀ c ∈ o.cmds, ∃ ch addr n k b, c = .data ch addr n k b ∧ 1 ≤ addr ∧ addr + (n : Int) - 1 ≤ 2 ^ 21 :=
+  setData_addr d start chs h1 h2 o ho
 
 /-! ### memory round trip -/
 
@@ -257,6 +246,27 @@ theorem get_set_roundtrip (m : Mem) (xs : List Int) (start : Int) (chs : Chs)
       g.data = List.replicate (checkChannels chs).1.length (xs.map bit) ∧
       o.warned = (checkChannels chs).2 ∧ g.warned = (checkChannels chs).2 :=
   roundtrip m xs start chs h1 h2 h3 h4
+
+/-- The same for 2-D data (a different row per channel): pairwise different channels in 1..4, as many rows as
+    channels, rows of equal length ≥ 1 that fit between the start address and the end of the memory (also exactly at
+    the end): `get_data` returns every row for its channel. -/
+theorem get_set_roundtrip_2d (m : Mem) (r : List Int) (rest : List (List Int)) (start : Int) (cs : List Int)
+    (hc : ∀ c ∈ cs, ChOk c) (hnd : cs.Nodup) (hlen : cs.length = (r :: rest).length)
+    (hall : ∀ r' ∈ rest, r'.length = r.length)
+    (h1 : 1 ≤ start) (h2 : start ≤ 2 ^ 21) (h3 : 1 ≤ r.length) (h4 : (r.length : Int) ≤ 2 ^ 21 - start + 1) :
+    ∃ o g, setData (.rows (r :: rest)) start (some cs) = .ok o ∧
+      getData (m.execAll o.cmds) r.length start (some cs) = .ok g ∧
+      g.data = (r :: rest).map (·.map bit) ∧ o.warned = false ∧ g.warned = false :=
+  roundtrip2d m r rest start cs hc hnd hlen hall h1 h2 h3 h4
+
+/-- the witness of the repaired defect: three rows of two bits at the last two addresses, channels 1,2,3 -/
+example : ∃ o g, setData (.rows [[1, 0], [0, 1], [1, 1]]) 2097151 (some [1, 2, 3]) = .ok o ∧
+    getData (Mem.zero.execAll o.cmds) 2 2097151 (some [1, 2, 3]) = .ok g ∧ g.data = [[1, 0], [0, 1], [1, 1]] := by
+  obtain ⟨o, g, h1, h2, h3, _⟩ := get_set_roundtrip_2d Mem.zero [1, 0] [[0, 1], [1, 1]] 2097151 [1, 2, 3]
+    (by intro c hc; simp only [List.mem_cons, List.not_mem_nil, or_false] at hc; unfold ChOk; omega)
+    (by decide) (by decide) (by intro r' hr; simp only [List.mem_cons, List.not_mem_nil, or_false] at hr; rcases hr with rfl | rfl <;> rfl)
+    (by norm_num) (by norm_num) (by decide) (by norm_num)
+  exact ⟨o, g, h1, h2, by rw [h3]; decide⟩
 
 /-- the driver's parsing of one answer block `#<k><n><bits>\n` returns the bits (cells read back as 0/1) -/
 theorem reply_parsed (bits : List Nat) (h : bits.length ≤ 1024) : parseReply (reply bits) = .ok (bits.map norm) :=
